@@ -1,6 +1,7 @@
 import GscribModel.Gen.MotionSrc
 import GscribModel.Props.BuilderTie
 import GscribModel.Props.PointTie
+import GscribModel.Props.C05
 /-! # The builder model's motion commands are the translated `GCodeBuilder` / `GCodeCore` methods
 
 `Gen/MotionSrc.lean` is *generated* on every run (`tools/gen_motion.py`) from the source text of
@@ -656,3 +657,470 @@ example :
     let b : B := { }
     let g := GCodeCore.move (absB b) ⟨some 1, none, none⟩ [("F", .fin 100), ("S", .fin (-1))] 0
     g = (absB b, some .valueError) := by decide +kernel
+
+/-! ## halts, comments, hooks -/
+namespace GscribModel.MotionTie
+
+def argHalt : HaltArg → Arg HaltMode
+  | .off => .val .OFF | .bogus => .bogus | m => .val (haltOf m)
+
+theorem tlh :
+    tableLookup "HaltMode" "PAUSE" = some "M00" ∧ tableLookup "HaltMode" "OPTIONAL_PAUSE" = some "M01" ∧
+    tableLookup "HaltMode" "END_WITHOUT_RESET" = some "M02" ∧ tableLookup "HaltMode" "END_WITH_RESET" = some "M30" ∧
+    tableLookup "HaltMode" "PALLET_EXCHANGE" = some "M60" ∧ tableLookup "HaltMode" "WAIT_FOR_BED" = some "M190" ∧
+    tableLookup "HaltMode" "WAIT_FOR_HOTEND" = some "M109" ∧ tableLookup "HaltMode" "WAIT_FOR_CHAMBER" = some "M191" ∧
+    tableLookup "HaltMode" "WAIT_FOR_MOTION" = some "M400" := by decide +kernel
+
+/-- `write(statement)` from any state: the halt mode goes back to `OFF` and the statement is handed on -/
+theorem write_any (s : BSt) (st : SStmt) :
+    GCodeBuilder.write s st = ({ s with state := { s.state with _current_halt_mode := .OFF }, out := s.out ++ [st] }, none) := by
+  simp only [GCodeBuilder.write, GState._set_halt_mode, coreWrite]
+  simp
+
+theorem lookupQ_none_of_not_mem (ps : List (String × Rat)) (k : String) (h : k ∉ ps.map (·.1)) : lookupQ ps k = none := by
+  induction ps with
+  | nil => rfl
+  | cons e r ih =>
+    simp only [List.map_cons, List.mem_cons, not_or] at h
+    have hne : (e.1 == k) = false := by
+      have : ¬ e.1 = k := fun hh => h.1 hh.symm
+      simpa using this
+    simp only [lookupQ, List.find?_cons, hne] at ih ⊢
+    exact ih h.2
+
+def optAll (o : OQ) (p : Rat → Bool) : Bool := match o with | some v => p v | none => true
+
+theorem haltTemps_all (ps : List (String × Rat)) (p : Rat → Bool) :
+    (haltTemps ps).all p = (optAll (lookupQ ps "S") p && optAll (lookupQ ps "R") p) := by
+  simp only [haltTemps]
+  cases lookupQ ps "S" <;> cases lookupQ ps "R" <;> simp [optAll]
+
+theorem lookupQ_cons (k : String) (v : Rat) (r : List (String × Rat)) (k' : String) :
+    lookupQ ((k, v) :: r) k' = if k == k' then some v else lookupQ r k' := by
+  simp only [lookupQ, List.find?_cons]
+  cases (k == k') <;> rfl
+
+/-- the S / R entries of a parameter list with distinct names are the two lookups -/
+theorem sr_all (ps : List (String × Rat)) (p : Rat → Bool) (hn : (ps.map (·.1)).Nodup) :
+    (ps.filter fun e => ["S", "R"].contains e.1).all (fun e => p e.2) = (haltTemps ps).all p := by
+  rw [haltTemps_all]
+  induction ps with
+  | nil => rfl
+  | cons e r ih =>
+    obtain ⟨k, v⟩ := e
+    simp only [List.map_cons, List.nodup_cons] at hn
+    have ih' := ih hn.2
+    rw [lookupQ_cons, lookupQ_cons, List.filter_cons]
+    by_cases hS : k = "S"
+    · subst hS
+      have hr : lookupQ r "S" = none := lookupQ_none_of_not_mem r "S" hn.1
+      have c1 : (["S", "R"].contains "S") = true := by decide
+      have c2 : ("S" == "S") = true := by decide
+      have c3 : ("S" == "R") = false := by decide
+      simp only [c1, c2, c3, if_true, Bool.false_eq_true, if_false, List.all_cons, ih', hr, optAll, Bool.true_and]
+    · by_cases hR : k = "R"
+      · subst hR
+        have hr : lookupQ r "R" = none := lookupQ_none_of_not_mem r "R" hn.1
+        have c1 : (["S", "R"].contains "R") = true := by decide
+        have c2 : ("R" == "R") = true := by decide
+        have c3 : ("R" == "S") = false := by decide
+        simp only [c1, c2, c3, if_true, Bool.false_eq_true, if_false, List.all_cons, ih', hr, optAll, Bool.and_true]
+        exact Bool.and_comm _ _
+      · have h1 : (k == "S") = false := by simpa using hS
+        have h2 : (k == "R") = false := by simpa using hR
+        have c1 : (["S", "R"].contains k) = false := by simp [hS, hR]
+        simp only [c1, h1, h2, Bool.false_eq_true, if_false, ih']
+
+theorem validateEach_eq (bd : Bounds) (name : String) (k : BKind) (hk : kindOfName name = some k) (vps : VParams)
+    (ps : List (String × Rat)) (hf : vps.fin? = some ps) :
+    validateEach bd name ["S", "R"] vps =
+      if (ps.filter fun e => ["S", "R"].contains e.1).all (fun e => bd.okNum k e.2) then none else some .valueError := by
+  induction vps generalizing ps with
+  | nil => simp [VParams.fin?] at hf; subst hf; rfl
+  | cons e r ih =>
+    obtain ⟨k', v⟩ := e
+    simp only [VParams.fin?] at hf
+    cases hv : v.fin? with
+    | none => simp [hv] at hf
+    | some q =>
+      cases hr : VParams.fin? r with
+      | none => simp [hv, hr] at hf
+      | some r' =>
+        simp [hv, hr] at hf
+        subst hf
+        have hvq : v = Val.fin q := by cases v <;> simp_all [Val.fin?]
+        subst hvq
+        simp only [validateEach, validateNum_fin bd k name hk, ih r' hr, List.filter_cons]
+        generalize (["S", "R"].contains k') = c
+        cases c
+        · simp only [Bool.false_eq_true, if_false]
+        · simp only [if_true, List.all_cons]
+          cases bd.okNum k q <;> simp only [Bool.true_and, Bool.false_and, Bool.false_eq_true, if_true, if_false]
+
+theorem userParam_eq (vps : VParams) (ps : List (String × Rat)) (hf : vps.fin? = some ps) :
+    userParam ["S", "R"] vps = (haltTemp ps).map Val.fin := by
+  simp only [userParam, List.findSome?, lookupV_fin vps ps hf, haltTemp]
+  cases lookupQ ps "S" <;> cases lookupQ ps "R" <;> rfl
+
+theorem fin_keys (vps : VParams) (ps : List (String × Rat)) (hf : vps.fin? = some ps) : ps.map (·.1) = vps.map (·.1) := by
+  induction vps generalizing ps with
+  | nil => simp [VParams.fin?] at hf; subst hf; rfl
+  | cons e r ih =>
+    obtain ⟨k, v⟩ := e
+    simp only [VParams.fin?] at hf
+    cases hv : v.fin? with
+    | none => simp [hv] at hf
+    | some q =>
+      cases hr : VParams.fin? r with
+      | none => simp [hv, hr] at hf
+      | some r' =>
+        simp [hv, hr] at hf
+        subst hf
+        simp [ih r' hr]
+
+/-- the model's bookkeeping of a wait command's temperature -/
+def setTemp (b : B) (k : BKind) (t : OQ) : B :=
+  match t, k with
+  | some t, .bed => { b with bed := some t }
+  | some t, .hotend => { b with hotend := some t }
+  | some t, .chamber => { b with chamber := some t }
+  | _, _ => b
+
+theorem ensure_tool (b : B) : GState._ensure_tool_is_inactive (absG b) "" = (absG b, if b.toolActive then some .toolState else none) := by
+  cases h : b.toolActive <;> simp [GState._ensure_tool_is_inactive, absG, h]
+theorem ensure_cool (b : B) : GState._ensure_coolant_is_inactive (absG b) "" = (absG b, if b.coolActive then some .coolantState else none) := by
+  cases h : b.coolActive <;> simp [GState._ensure_coolant_is_inactive, absG, h]
+
+theorem set_halt (b : B) (md : HaltMode) (ht : b.toolActive = false) (hc : b.coolActive = false) :
+    GState._set_halt_mode (absG b) md = ({ absG b with _current_halt_mode := md }, none) := by
+  have e1 : (absG b)._is_tool_active = false := by simp [absG, ht]
+  have e2 : (absG b)._is_coolant_active = false := by simp [absG, hc]
+  by_cases hm : md = .OFF
+  · subst hm; simp [GState._set_halt_mode]
+  · simp [GState._set_halt_mode, GState._ensure_tool_is_inactive, GState._ensure_coolant_is_inactive, e1, e2, hm]
+
+/-- what `halt()` does once the interlocks and the formatter have passed: `_set_halt_mode(mode)`, then `write` (which puts
+    the halt mode back to `OFF`) -/
+theorem halt_finish (b : B) (o : List SStmt) (c : List HookCall) (md : HaltMode) (st : SStmt)
+    (ht : b.toolActive = false) (hc : b.coolActive = false) (g : GState) (hg : g = absG b) :
+    GCodeBuilder.write ({ absB' b o c with state := { g with _current_halt_mode := md } }) st = (absB' b (o ++ [st]) c, none) := by
+  subst hg
+  rw [write_any]; rfl
+
+def haltStmt (m : HaltArg) (ps : List (String × Rat)) : SStmt := [Part.instr "HaltMode" (HaltMode.memberName (haltOf m)) ps]
+
+/-- `halt(mode, **kwargs)` in closed form, from a state with anything already written -/
+def haltRes (b : B) (o : List SStmt) (c : List HookCall) (m : HaltArg) (vps : VParams) : BSt × Option Err :=
+  if b.toolActive then (absB' b o c, some .toolState) else
+  if b.coolActive then (absB' b o c, some .coolantState) else
+  match vps.fin? with
+  | none => (absB' b o c, some .valueError)
+  | some ps =>
+    match m.kind with
+    | none => (absB' b (o ++ [haltStmt m ps]) c, none)
+    | some k =>
+      if (haltTemps ps).all (b.bounds.okNum k) then (absB' (setTemp b k (haltTemp ps)) (o ++ [haltStmt m ps]) c, none)
+      else (absB' b o c, some .valueError)
+
+theorem halt_eq_plain (b : B) (o : List SStmt) (c : List HookCall) (m : HaltArg) (vps : VParams) (h : Rat)
+    (hm : m = .pause ∨ m = .optionalPause ∨ m = .endNoReset ∨ m = .endReset ∨ m = .pallet ∨ m = .waitMotion) :
+    GCodeBuilder.halt (absB' b o c) (Arg.val (haltOf m)) vps h = haltRes b o c m vps := by
+  have hs : (absB' b o c).state = absG b := rfl
+  have e1 : ({ absB' b o c with state := absG b } : BSt) = absB' b o c := rfl
+  rcases hm with rfl | rfl | rfl | rfl | rfl | rfl <;>
+  (simp only [GCodeBuilder.halt, haltOf, Arg.val.injEq, reduceCtorEq, decide_false, Bool.false_eq_true, if_false, hs, ensure_tool, ensure_cool, haltRes, HaltArg.kind]
+   by_cases ht : b.toolActive = true
+   · (simp [ht] <;> first | done | rfl)
+   · have ht' : b.toolActive = false := by simpa using ht
+     simp only [ht', Bool.false_eq_true, if_false, e1, hs, ensure_cool]
+     by_cases hc : b.coolActive = true
+     · (simp [hc] <;> first | done | rfl)
+     · have hc' : b.coolActive = false := by simpa using hc
+       simp only [hc', Bool.false_eq_true, if_false, e1, getStatement, fmtWords_eq_fin]
+       cases hf : VParams.fin? vps with
+       | none => rfl
+       | some ps =>
+         simp only [Option.map_some, hs, set_halt b _ ht' hc']
+         cases hu : userParam ["S", "R"] vps <;>
+           simp only [halt_finish b o c _ _ ht' hc' _ rfl, haltStmt, haltOf, Arg.val.injEq, reduceCtorEq, decide_false, Bool.false_eq_true, if_false])
+
+theorem haltTemp_ok (ps : List (String × Rat)) (p : Rat → Bool) (t : Rat) (ht : haltTemp ps = some t)
+    (ha : (haltTemps ps).all p = true) : p t = true := by
+  rw [haltTemps_all] at ha
+  simp only [haltTemp] at ht
+  cases hS : lookupQ ps "S" with
+  | some s => simp only [hS, Option.some.injEq] at ht; subst ht; simp [hS, optAll] at ha; exact ha.1
+  | none => simp only [hS] at ht; simp [hS, ht, optAll] at ha; exact ha
+
+theorem halt_eq_bed (b : B) (o : List SStmt) (c : List HookCall) (vps : VParams) (h : Rat) (hn : (vps.map (·.1)).Nodup) :
+    GCodeBuilder.halt (absB' b o c) (Arg.val (haltOf .waitBed)) vps h = haltRes b o c .waitBed vps := by
+  have hs : (absB' b o c).state = absG b := rfl
+  have hb : (absG b)._user_bounds = b.bounds := rfl
+  have e1 : ({ absB' b o c with state := absG b } : BSt) = absB' b o c := rfl
+  simp only [GCodeBuilder.halt, haltOf, Arg.val.injEq, reduceCtorEq, decide_false, Bool.false_eq_true, if_false, hs, ensure_tool, ensure_cool, haltRes, HaltArg.kind]
+  by_cases ht : b.toolActive = true
+  · (simp [ht] <;> first | done | rfl)
+  · have ht' : b.toolActive = false := by simpa using ht
+    simp only [ht', Bool.false_eq_true, if_false, e1, hs, ensure_cool]
+    by_cases hc : b.coolActive = true
+    · (simp [hc] <;> first | done | rfl)
+    · have hc' : b.coolActive = false := by simpa using hc
+      simp only [hc', Bool.false_eq_true, if_false, e1, getStatement, fmtWords_eq_fin]
+      cases hf : VParams.fin? vps with
+      | none => rfl
+      | some ps =>
+        have hnp : (ps.map (·.1)).Nodup := by rw [fin_keys vps ps hf]; exact hn
+        have v1 := validateEach_eq b.bounds "bed-temperature" .bed rfl vps ps hf
+        simp only [Option.map_some, hs, hb, v1, sr_all ps _ hnp, userParam_eq vps ps hf]
+        by_cases ha : (haltTemps ps).all (b.bounds.okNum .bed) = true
+        · simp only [ha, if_true]
+          cases htm : haltTemp ps with
+          | none =>
+            simp only [Option.map_none, set_halt b _ ht' hc', halt_finish b o c _ _ ht' hc' _ rfl, setTemp, haltStmt, haltOf]
+          | some t =>
+            have hok : (absG b)._user_bounds.okNum .bed t = true := haltTemp_ok ps _ t htm ha
+            simp only [Option.map_some, decide_true, if_true, GState._set_target_bed_temperature, validateNum_fin _ .bed "bed-temperature" rfl,
+              hok, reduceCtorEq, decide_false, Bool.false_eq_true, if_false]
+            have eb : ({ absG b with _target_bed_temperature := Val.fin t } : GState) = absG { b with bed := some t } := rfl
+            simp only [eb, set_halt { b with bed := some t } _ ht' hc']
+            exact halt_finish { b with bed := some t } o c _ _ ht' hc' _ rfl
+        · simp only [ha, Bool.false_eq_true, if_false]
+
+theorem halt_eq_hotend (b : B) (o : List SStmt) (c : List HookCall) (vps : VParams) (h : Rat) (hn : (vps.map (·.1)).Nodup) :
+    GCodeBuilder.halt (absB' b o c) (Arg.val (haltOf .waitHotend)) vps h = haltRes b o c .waitHotend vps := by
+  have hs : (absB' b o c).state = absG b := rfl
+  have hb : (absG b)._user_bounds = b.bounds := rfl
+  have e1 : ({ absB' b o c with state := absG b } : BSt) = absB' b o c := rfl
+  simp only [GCodeBuilder.halt, haltOf, Arg.val.injEq, reduceCtorEq, decide_false, Bool.false_eq_true, if_false, hs, ensure_tool, ensure_cool, haltRes, HaltArg.kind]
+  by_cases ht : b.toolActive = true
+  · (simp [ht] <;> first | done | rfl)
+  · have ht' : b.toolActive = false := by simpa using ht
+    simp only [ht', Bool.false_eq_true, if_false, e1, hs, ensure_cool]
+    by_cases hc : b.coolActive = true
+    · (simp [hc] <;> first | done | rfl)
+    · have hc' : b.coolActive = false := by simpa using hc
+      simp only [hc', Bool.false_eq_true, if_false, e1, getStatement, fmtWords_eq_fin]
+      cases hf : VParams.fin? vps with
+      | none => rfl
+      | some ps =>
+        have hnp : (ps.map (·.1)).Nodup := by rw [fin_keys vps ps hf]; exact hn
+        have v1 := validateEach_eq b.bounds "hotend-temperature" .hotend rfl vps ps hf
+        simp only [Option.map_some, hs, hb, v1, sr_all ps _ hnp, userParam_eq vps ps hf]
+        by_cases ha : (haltTemps ps).all (b.bounds.okNum .hotend) = true
+        · simp only [ha, if_true]
+          cases htm : haltTemp ps with
+          | none =>
+            simp only [Option.map_none, set_halt b _ ht' hc', halt_finish b o c _ _ ht' hc' _ rfl, setTemp, haltStmt, haltOf]
+          | some t =>
+            have hok : (absG b)._user_bounds.okNum .hotend t = true := haltTemp_ok ps _ t htm ha
+            simp only [Option.map_some, decide_true, if_true, GState._set_target_hotend_temperature, validateNum_fin _ .hotend "hotend-temperature" rfl,
+              hok, reduceCtorEq, decide_false, Bool.false_eq_true, if_false]
+            have eb : ({ absG b with _target_hotend_temperature := Val.fin t } : GState) = absG { b with hotend := some t } := rfl
+            simp only [eb, set_halt { b with hotend := some t } _ ht' hc']
+            exact halt_finish { b with hotend := some t } o c _ _ ht' hc' _ rfl
+        · simp only [ha, Bool.false_eq_true, if_false]
+
+theorem halt_eq_chamber (b : B) (o : List SStmt) (c : List HookCall) (vps : VParams) (h : Rat) (hn : (vps.map (·.1)).Nodup) :
+    GCodeBuilder.halt (absB' b o c) (Arg.val (haltOf .waitChamber)) vps h = haltRes b o c .waitChamber vps := by
+  have hs : (absB' b o c).state = absG b := rfl
+  have hb : (absG b)._user_bounds = b.bounds := rfl
+  have e1 : ({ absB' b o c with state := absG b } : BSt) = absB' b o c := rfl
+  simp only [GCodeBuilder.halt, haltOf, Arg.val.injEq, reduceCtorEq, decide_false, Bool.false_eq_true, if_false, hs, ensure_tool, ensure_cool, haltRes, HaltArg.kind]
+  by_cases ht : b.toolActive = true
+  · (simp [ht] <;> first | done | rfl)
+  · have ht' : b.toolActive = false := by simpa using ht
+    simp only [ht', Bool.false_eq_true, if_false, e1, hs, ensure_cool]
+    by_cases hc : b.coolActive = true
+    · (simp [hc] <;> first | done | rfl)
+    · have hc' : b.coolActive = false := by simpa using hc
+      simp only [hc', Bool.false_eq_true, if_false, e1, getStatement, fmtWords_eq_fin]
+      cases hf : VParams.fin? vps with
+      | none => rfl
+      | some ps =>
+        have hnp : (ps.map (·.1)).Nodup := by rw [fin_keys vps ps hf]; exact hn
+        have v1 := validateEach_eq b.bounds "chamber-temperature" .chamber rfl vps ps hf
+        simp only [Option.map_some, hs, hb, v1, sr_all ps _ hnp, userParam_eq vps ps hf]
+        by_cases ha : (haltTemps ps).all (b.bounds.okNum .chamber) = true
+        · simp only [ha, if_true]
+          cases htm : haltTemp ps with
+          | none =>
+            simp only [Option.map_none, set_halt b _ ht' hc', halt_finish b o c _ _ ht' hc' _ rfl, setTemp, haltStmt, haltOf]
+          | some t =>
+            have hok : (absG b)._user_bounds.okNum .chamber t = true := haltTemp_ok ps _ t htm ha
+            simp only [Option.map_some, decide_true, if_true, GState._set_target_chamber_temperature, validateNum_fin _ .chamber "chamber-temperature" rfl,
+              hok, reduceCtorEq, decide_false, Bool.false_eq_true, if_false]
+            have eb : ({ absG b with _target_chamber_temperature := Val.fin t } : GState) = absG { b with chamber := some t } := rfl
+            simp only [eb, set_halt { b with chamber := some t } _ ht' hc']
+            exact halt_finish { b with chamber := some t } o c _ _ ht' hc' _ rfl
+        · simp only [ha, Bool.false_eq_true, if_false]
+
+end GscribModel.MotionTie
+
+open GscribModel.MotionTie in
+/-- `haltRes` against the model's `stepHalt` -/
+theorem GscribModel.MotionTie.haltRes_agrees (b : B) (m : HaltArg) (vps : VParams) (hm : ¬ (m = .off ∨ m = .bogus)) :
+    AgreesM (stepHalt b m vps) (haltRes b [] [] m vps) := by
+  simp only [stepHalt, hm, if_false, haltRes]
+  by_cases ht : b.toolActive = true
+  · (simp [ht, AgreesM, reject, outOf, absB'_strip, absB'] <;> first | done | rfl)
+  · have ht' : b.toolActive = false := by simpa using ht
+    by_cases hc : b.coolActive = true
+    · (simp [ht', hc, AgreesM, reject, outOf, absB'_strip, absB'] <;> first | done | rfl)
+    · have hc' : b.coolActive = false := by simpa using hc
+      have pt : (b.toolActive = true) = False := by simp [ht']
+      have pc : (b.coolActive = true) = False := by simp [hc']
+      simp only [pt, pc, if_false]
+      clear ht ht' hc hc' pt pc
+      cases hf : VParams.fin? vps with
+      | none => (simp [AgreesM, reject, outOf, absB'_strip, absB'] <;> first | done | rfl)
+      | some ps =>
+        cases hk : m.kind with
+        | none =>
+          cases m <;> simp_all [HaltArg.kind] <;>
+            (simp [AgreesM, accept, outOf, absB', absB, view3, conv3, partCodes3, partAx, partWords, Code.text, haltStmt, haltOf, HaltArg.code, HaltMode.memberName, tlh] <;> first | done | rfl)
+        | some k =>
+          by_cases ha : (haltTemps ps).all (b.bounds.okNum k) = true
+          · simp only [ha, Bool.not_true, Bool.false_eq_true, if_false, if_true]
+            cases m <;> simp_all [HaltArg.kind] <;> subst hk <;>
+              (cases htm : haltTemp ps <;>
+                (simp [setTemp, AgreesM, accept, outOf, absB', absB, view3, conv3, partCodes3, partAx, partWords, Code.text, haltStmt, haltOf, HaltArg.code, HaltMode.memberName, tlh] <;> first | done | rfl))
+          · (simp [ha, AgreesM, reject, outOf, absB'_strip, absB'] <;> first | done | rfl)
+
+/-- **`halt()`**: the mode, then the tool and coolant interlocks, then formatting, then every S / R temperature against the
+    bounds, then the tracked target and the halt mode, then the statement. -/
+theorem MotionTie_halt (b : B) (m : HaltArg) (vps : VParams) (h : Rat) (hn : (vps.map (·.1)).Nodup) :
+    AgreesM (step b (.halt m vps)) (GCodeBuilder.halt (absB b) (argHalt m) vps h) := by
+  have e0 : absB b = absB' b [] [] := rfl
+  cases m with
+  | off => exact ⟨rfl, rfl, rfl, rfl⟩
+  | bogus => exact ⟨rfl, rfl, rfl, rfl⟩
+  | pause =>
+    show AgreesM (stepHalt b .pause vps) (GCodeBuilder.halt (absB b) (Arg.val (haltOf .pause)) vps h)
+    rw [e0, halt_eq_plain b [] [] .pause vps h (by simp)]
+    exact haltRes_agrees b _ vps (by decide)
+  | optionalPause =>
+    show AgreesM (stepHalt b .optionalPause vps) (GCodeBuilder.halt (absB b) (Arg.val (haltOf .optionalPause)) vps h)
+    rw [e0, halt_eq_plain b [] [] .optionalPause vps h (by simp)]
+    exact haltRes_agrees b _ vps (by decide)
+  | endNoReset =>
+    show AgreesM (stepHalt b .endNoReset vps) (GCodeBuilder.halt (absB b) (Arg.val (haltOf .endNoReset)) vps h)
+    rw [e0, halt_eq_plain b [] [] .endNoReset vps h (by simp)]
+    exact haltRes_agrees b _ vps (by decide)
+  | endReset =>
+    show AgreesM (stepHalt b .endReset vps) (GCodeBuilder.halt (absB b) (Arg.val (haltOf .endReset)) vps h)
+    rw [e0, halt_eq_plain b [] [] .endReset vps h (by simp)]
+    exact haltRes_agrees b _ vps (by decide)
+  | pallet =>
+    show AgreesM (stepHalt b .pallet vps) (GCodeBuilder.halt (absB b) (Arg.val (haltOf .pallet)) vps h)
+    rw [e0, halt_eq_plain b [] [] .pallet vps h (by simp)]
+    exact haltRes_agrees b _ vps (by decide)
+  | waitMotion =>
+    show AgreesM (stepHalt b .waitMotion vps) (GCodeBuilder.halt (absB b) (Arg.val (haltOf .waitMotion)) vps h)
+    rw [e0, halt_eq_plain b [] [] .waitMotion vps h (by simp)]
+    exact haltRes_agrees b _ vps (by decide)
+  | waitBed =>
+    show AgreesM (stepHalt b .waitBed vps) (GCodeBuilder.halt (absB b) (Arg.val (haltOf .waitBed)) vps h)
+    rw [e0, halt_eq_bed b [] [] vps h hn]
+    exact haltRes_agrees b _ vps (by decide)
+  | waitHotend =>
+    show AgreesM (stepHalt b .waitHotend vps) (GCodeBuilder.halt (absB b) (Arg.val (haltOf .waitHotend)) vps h)
+    rw [e0, halt_eq_hotend b [] [] vps h hn]
+    exact haltRes_agrees b _ vps (by decide)
+  | waitChamber =>
+    show AgreesM (stepHalt b .waitChamber vps) (GCodeBuilder.halt (absB b) (Arg.val (haltOf .waitChamber)) vps h)
+    rw [e0, halt_eq_chamber b [] [] vps h hn]
+    exact haltRes_agrees b _ vps (by decide)
+
+namespace GscribModel.MotionTie
+
+theorem pair_eta (x : BSt × Option Err) :
+    (match x with | (s, some e) => (s, some e) | (s, none) => (s, none)) = x := by
+  obtain ⟨s, o⟩ := x; cases o <;> rfl
+
+theorem comment_eq (b : B) (o : List SStmt) (c : List HookCall) (h : Rat) :
+    GCodeCore.comment (absB' b o c) h = (absB' b (o ++ [[Part.comment]]) c, none) := by
+  simp only [GCodeCore.comment, write_eq]
+
+theorem tool_off_eq (b : B) (o : List SStmt) (c : List HookCall) :
+    GCodeBuilder.tool_off (absB' b o c) =
+      (absB' (stepToolOff b).1 (o ++ [[Part.instr "SpinMode" (SpinMode.memberName .OFF) []]]) c, none) := by
+  have hs : (absB' b o c).state = absG b := rfl
+  simp only [GCodeBuilder.tool_off, hs, StateTie_tool_off, getStatement, fmtWords, Option.map_some]
+  exact write_eq (stepToolOff b).1 o c _
+
+theorem coolant_off_eq (b : B) (o : List SStmt) (c : List HookCall) :
+    GCodeBuilder.coolant_off (absB' b o c) =
+      (absB' (stepCoolOff b).1 (o ++ [[Part.instr "CoolantMode" (CoolantMode.memberName .OFF) []]]) c, none) := by
+  have hs : (absB' b o c).state = absG b := rfl
+  simp only [GCodeBuilder.coolant_off, hs, StateTie_coolant_off, getStatement, fmtWords, Option.map_some]
+  exact write_eq (stepCoolOff b).1 o c _
+
+end GscribModel.MotionTie
+
+/-- **`comment()`**: one statement without words, nothing tracked. -/
+theorem MotionTie_comment (b : B) (h : Rat) : AgreesM (step b .comment) (GCodeCore.comment (absB b) h) := by
+  have e0 : absB b = absB' b [] [] := rfl
+  rw [e0, comment_eq]
+  exact ⟨rfl, rfl, rfl, rfl⟩
+
+/-- **`wait()`, `pause()`, `stop()`** are `halt()` with a fixed mode. -/
+theorem MotionTie_wait_pause_stop (b : B) (flag : Bool) (h : Rat) :
+    GCodeBuilder.wait (absB b) h = GCodeBuilder.halt (absB b) (Arg.val HaltMode.WAIT_FOR_MOTION) [] h ∧
+    GCodeBuilder.pause (absB b) flag h = GCodeBuilder.halt (absB b) (Arg.val (if flag then HaltMode.OPTIONAL_PAUSE else HaltMode.PAUSE)) [] h ∧
+    GCodeBuilder.stop (absB b) flag h = GCodeBuilder.halt (absB b) (Arg.val (if flag then HaltMode.END_WITH_RESET else HaltMode.END_WITHOUT_RESET)) [] h := by
+  refine ⟨?_, ?_, ?_⟩
+  · simp only [GCodeBuilder.wait]; exact pair_eta _
+  · simp only [GCodeBuilder.pause]; exact pair_eta _
+  · simp only [GCodeBuilder.stop]; exact pair_eta _
+
+/-- **`emergency_halt()`**: tool off, coolant off, the message comment, then the halt - which the two interlocks can no
+    longer refuse; every statement is written and the builder reports tool and coolant inactive (C06). -/
+theorem MotionTie_emergency_halt (b : B) (reset : Bool) (h : Rat) :
+    AgreesM (step b (.ehalt reset)) (GCodeBuilder.emergency_halt (absB b) reset h) := by
+  have e0 : absB b = absB' b [] [] := rfl
+  simp only [GCodeBuilder.emergency_halt, e0, tool_off_eq, coolant_off_eq, comment_eq]
+  have ht : (stepCoolOff (stepToolOff b).1).1.toolActive = false := rfl
+  have hc : (stepCoolOff (stepToolOff b).1).1.coolActive = false := rfl
+  cases reset
+  · have hh := halt_eq_plain (stepCoolOff (stepToolOff b).1).1 ([] ++ [[Part.instr "SpinMode" (SpinMode.memberName .OFF) []]] ++ [[Part.instr "CoolantMode" (CoolantMode.memberName .OFF) []]] ++ [[Part.comment]]) [] .pause [] h (by simp)
+    simp only [haltOf] at hh
+    simp only [Bool.false_eq_true, if_false, hh, haltRes, ht, hc, VParams.fin?, HaltArg.kind]
+    (simp [step, AgreesM, accept, outOf, absB', absB, view3, conv3, partCodes3, partAx, partWords, Code.text, haltStmt, haltOf, HaltMode.memberName, SpinMode.memberName, CoolantMode.memberName, tlh, tl, stepToolOff, stepCoolOff] <;> first | done | rfl)
+  · have hh := halt_eq_plain (stepCoolOff (stepToolOff b).1).1 ([] ++ [[Part.instr "SpinMode" (SpinMode.memberName .OFF) []]] ++ [[Part.instr "CoolantMode" (CoolantMode.memberName .OFF) []]] ++ [[Part.comment]]) [] .endReset [] h (by simp)
+    simp only [haltOf] at hh
+    simp only [if_true, hh, haltRes, ht, hc, VParams.fin?, HaltArg.kind, Bool.false_eq_true, if_false]
+    (simp [step, AgreesM, accept, outOf, absB', absB, view3, conv3, partCodes3, partAx, partWords, Code.text, haltStmt, haltOf, HaltMode.memberName, SpinMode.memberName, CoolantMode.memberName, tlh, tl, stepToolOff, stepCoolOff] <;> first | done | rfl)
+
+/-- **`add_hook()` / `remove_hook()`**: the hook list has no duplicates and removing an unknown hook changes nothing. -/
+theorem MotionTie_hooks (b : B) (hk : Hook) (h : Rat) :
+    AgreesM (step b (.addHook hk)) (GCodeBuilder.add_hook (absB b) hk h) ∧
+    AgreesM (step b (.removeHook hk)) (GCodeBuilder.remove_hook (absB b) hk h) := by
+  have hl : (absB b)._hooks = b.hooks := rfl
+  constructor
+  · simp only [GCodeBuilder.add_hook, hl, step]
+    by_cases hm : hk ∈ b.hooks <;> (simp [hm, AgreesM, accept, outOf, absB] <;> first | done | rfl)
+  · simp only [GCodeBuilder.remove_hook, hl, step]
+    by_cases hm : hk ∈ b.hooks
+    · (simp [hm, AgreesM, accept, outOf, absB] <;> first | done | rfl)
+    · have he : b.hooks.erase hk = b.hooks := List.erase_of_not_mem hm
+      (simp [hm, he, AgreesM, accept, outOf, absB] <;> first | done | rfl)
+
+/-! ## C05 read off the translated source -/
+
+/-- **A translated command that raises has changed nothing**: whenever a translated command agrees with the model's step
+    (every theorem above) and raises, the builder object it leaves behind - state object, core position, remembered
+    parameters, distance mode, hooks - is the one it was called on. -/
+theorem MotionTie_reject_unchanged (b : B) (op : Op) (g : BSt × Option Err) (hag : AgreesM (step b op) g) (e : Err)
+    (he : g.2 = some e) : ({ g.1 with out := [], calls := [] } : BSt) = absB b := by
+  obtain ⟨h1, h2, _, _⟩ := hag
+  rw [he] at h1
+  rw [← h2, C05_reject_state b op e h1]
+
+/-- ... **and has written nothing**, except at the call site of the known finding (`move_absolute` in relative mode with hooks). -/
+theorem MotionTie_reject_silent (b : B) (op : Op) (g : BSt × Option Err) (hag : AgreesM (step b op) g) (e : Err)
+    (he : g.2 = some e) (hsite : ¬ BypassWithHooks b op) : g.1.out = [] := by
+  obtain ⟨h1, _, h3, _⟩ := hag
+  rw [he] at h1
+  have := C05_reject_silent_partial b op e h1 hsite
+  rw [this] at h3
+  simpa using h3.symm
